@@ -283,6 +283,30 @@ fn step(w: &mut World, op: &R1Op, pre: Option<&Resolved>, remap: &BTreeMap<Id, I
                         Mode::Input => {
                             check_cost(w, name, "alloc_input", before, Some((0, 0, 1)));
                             w.probe("public_input_element_allocated");
+                            // what a verifier will feed in for this public input is ToConstraintField of the
+                            // native element: the instance variable just allocated must hold exactly that
+                            // (its reference value is the specification encoding of the element)
+                            let assigned = w.cs.borrow().and_then(|c| c.instance_assignment.last().copied());
+                            let native = ark_ff::ToConstraintField::<Fq>::to_field_elements(&p);
+                            let spec = bridge::elem_to_pt(&p)
+                                .and_then(|pt| rd::encode_s(&pt))
+                                .map(|x| bridge::big_to_fq(&x));
+                            match (assigned, native.as_deref(), spec) {
+                                (Some(a), Some([n]), Some(sp)) if a == *n && a == sp => {
+                                    w.probe("public_input_matches_to_field_elements");
+                                }
+                                (a, n, sp) => w.viol(
+                                    "C13",
+                                    "public_input",
+                                    format!("op={}", name),
+                                    format!(
+                                        "instance variable {:?}, ToConstraintField {:?}, specification encoding {:?}",
+                                        a.map(|x| hex(&x.to_bytes_le())),
+                                        n.map(|v| v.iter().map(|x| hex(&x.to_bytes_le())).collect::<Vec<_>>()),
+                                        sp.map(|x| hex(&x.to_bytes_le()))
+                                    ),
+                                ),
+                            }
                         }
                         Mode::Constant => check_cost(w, name, "alloc_constant", before, Some((0, 0, 0))),
                         Mode::Witness => {}
